@@ -257,7 +257,11 @@ class Enumerator:
         return paths
 
     def _stmt(self, p: Path, st: ast.stmt) -> list[Path]:
-        if isinstance(st, (ast.Pass, ast.Import, ast.ImportFrom, ast.Global, ast.Nonlocal, ast.FunctionDef, ast.AsyncFunctionDef, ast.ClassDef, ast.Assert)):
+        if isinstance(st, (ast.Pass, ast.Import, ast.ImportFrom, ast.Global, ast.Nonlocal, ast.FunctionDef, ast.AsyncFunctionDef, ast.ClassDef)):
+            return [p]
+        if isinstance(st, ast.Assert):
+            # what an assertion states holds on every path that continues
+            p.add_cond(subst(st.test, p.env), True)
             return [p]
         if isinstance(st, ast.Expr):
             if isinstance(st.value, ast.Constant):
